@@ -31,6 +31,8 @@ class D(operator.Operator):
         """
 
         tau, D, k = common.map_arrays((tau, D, k))
+        if np.any(np.asarray(tau) < 0):
+            raise ValueError("Cannot have negative time")
         self._shape, self._kdim = get_shape(tau, D, k)
 
         if name is None:  # default name
